@@ -79,6 +79,7 @@ FAMILIES = {
     "backslash_newlines": lambda n: "\\\n" * n,
     "crlf_lines": lambda n: "@a{k,\r\n t = {v}\r\n}\r\n" * min(n, 10**5),
     # @string definitions that refer to each other (bare identifiers as values), used by an entry
+    "string_case_variants": lambda n: '@string{Abc = "x"}\n@string{ABC = "y"}\n' + "".join("@a{k%d, f = %s}\n" % (i, ["abc", "Abc", "ABC", "aBC"][i % 4]) for i in range(min(n, 1000))),
     "string_self_reference": lambda n: "@string{s = s}\n" + "@a{k%d, f = s}\n" * min(n, 1000),
     "string_cycle": lambda n: "".join("@string{s%d = s%d}\n" % (i, (i + 1) % min(n, 2000)) for i in range(min(n, 2000))) + "@a{k, f = s0, g = s1}",
     "string_chain": lambda n: "".join("@string{s%d = s%d}\n" % (i, i + 1) for i in range(min(n, 2000))) + '@string{s%d = "end"}\n@a{k, f = s0}' % min(n, 2000),
